@@ -12,10 +12,14 @@ import json, re, pathlib
 root = pathlib.Path(".")
 mods = set(["QV"])
 data = json.loads((root / ".." / "tools" / "theorems.json").read_text())
-for v in data.values():
-    mods.update(v["modules"])
+claimed = set(json.loads((root / ".." / "tools" / "checks.json").read_text()))
+for k, v in data.items():
+    if k in claimed:
+        mods.update(v["modules"])
 for drv in root.glob("Driver*.lean"):
-    mods.update(re.findall(r"^import\s+(QV[\w.]*)", drv.read_text(), re.M))
+    tag = drv.stem[len("Driver"):]
+    if tag == "" or tag in claimed:
+        mods.update(re.findall(r"^import\s+(QV[\w.]*)", drv.read_text(), re.M))
 mods = {m for m in mods if (root / (m.replace(".", "/") + ".lean")).exists() and not m.startswith("QV.Gen")}
 print(" ".join(sorted(mods)))
 EOF
